@@ -13,6 +13,9 @@
 //	builtinFunctions …          keys of Functions / AggregateFunctions / AnalyticFunctions and the names the
 //	                            evaluator and the scanner treat specially
 //	strToTimeIndexSites         every s[i] of value.StrToTime with the path conditions on len(s)
+//	argIndexSites …             every index / slice expression on an argument slice of the built-in functions (and every
+//	                            constant index of lib/query, lib/action, lib/cli, lib/option) with the length conditions that
+//	                            dominate it; uses without a rule; the count checks of every function name (argfacts.go)
 //
 // Standard library only.  Any construct without a rule makes the program exit with status 1 (the check
 // then reports an undischarged obligation, never "holds").
@@ -1066,6 +1069,10 @@ func strList(xs []string) string {
 func main() {
 	root := repoRoot()
 	pkgs := loadAll(root)
+	if os.Getenv("ERRFACTS_ONLY_ARGS") != "" { // development aid: the argument-slice section alone
+		printArgFacts(argFacts(pkgs))
+		return
+	}
 	qp := findPkg(pkgs, "/lib/query")
 	ret, num, consts := parseConsts(qp, "error_code.go")
 	ctors := parseCtors(pkgs, consts)
@@ -1196,5 +1203,6 @@ func main() {
 	}
 	fmt.Println("]")
 	fmt.Println()
+	printArgFacts(argFacts(pkgs))
 	fmt.Println("end Csvq.Gen")
 }
